@@ -274,6 +274,7 @@ func runFanoutHistory(cfgTok, evTok string) string {
 	var order []uint64
 	var msgs []pubMsg
 	var tsBlobs, patBlobs, sdpBlobs [][]byte
+	recvBufs := map[uint8][]byte{}
 	pushAttached := false
 	wantOpened := 0
 	var pushSegments [][]base.RtmpMsg // one per input epoch
@@ -424,7 +425,22 @@ func runFanoutHistory(cfgTok, evTok string) string {
 				m.tag = append([]byte{}, l2t.GetEnsureWithoutSdf()...)
 			}
 			msgs = append(msgs, m)
+			// a real publisher session reuses its receive buffer for every message of a
+			// chunk stream ("the payload block is reused after the callback returns"):
+			// hand the group a payload that lives in such a per-type buffer
+			rb := recvBufs[m.t]
+			if cap(rb) < len(m.payload) {
+				rb = make([]byte, len(m.payload), 2*len(m.payload)+16)
+			}
+			rb = rb[:len(m.payload)]
+			copy(rb, m.payload)
+			recvBufs[m.t] = rb
+			msg.Payload = rb
 			group.OnReadRtmpAvMsg(msg)
+			// ... and scribble over it afterwards, as the next message on that chunk stream would
+			for i := range rb {
+				rb[i] ^= 0x5a
+			}
 		case "Jr", "Jf", "Jw", "Jt", "Jp":
 			id := numTok(f[1])
 			if _, ok := consumers[id]; ok {
